@@ -383,3 +383,23 @@ def write_ndjson(path, rows):
         for r in rows:
             f.write(json.dumps(r) + "\n")
     return path
+
+
+# ----------------------------------------------------------------------------- TLAPS
+def run_tlapm(module_rel, timeout=900):
+    """Check the proofs of spec/<module_rel> with tlapm in a scratch directory; returns (obligations, proved)."""
+    wd = subdir("tlapm-%d" % (int(time.time() * 1000) % 10**9))
+    src = os.path.join(SPEC, module_rel)
+    shutil.copy(src, wd)
+    try:
+        p = subprocess.run(["tlapm", "--toolbox", "0", "0", os.path.basename(src)], cwd=wd, stdout=subprocess.PIPE, stderr=subprocess.STDOUT,
+                           text=True, timeout=timeout)
+    except (subprocess.TimeoutExpired, FileNotFoundError) as ex:
+        raise MachineryError("tlapm failed to run: %s" % ex)
+    m = re.search(r"All (\d+) obligations? proved", p.stdout)
+    if m:
+        return int(m.group(1)), int(m.group(1))
+    m = re.search(r"(\d+)/(\d+) obligations? failed", p.stdout)
+    if m:
+        return int(m.group(2)), int(m.group(2)) - int(m.group(1))
+    raise MachineryError("tlapm output not understood: %s" % p.stdout[-800:])
